@@ -9,6 +9,7 @@
    (tools/c15.py) and must say that every trait method is a single critical section.
    Partial by nature: fairness and wake-ups of async_lock::Mutex and of the executor are run-time
    behaviour; they are exercised by the deterministic-scheduler runs of tools/c15.py. *)
+From HC Require Import SharedMore SharedMoreR.
 From HC Require Import SoundCoreLib SoundCore ReplicaDisk1 ReplicaDisk5 ReplicaMiscC.
 From HC Require Import Base Crypto Storage Core Refine ClearRefine Unified1 Unified3 SharedInst.
 From Coq Require Import String.
@@ -395,6 +396,284 @@ Theorem C15_shared_replica_split_instance :
             Sound.some_collision cr \/ forged_signature cr bs (kp_public (c_keypair c))).
 Proof. exact rshared_core_split. Qed.
 
+Theorem C15_all_writer_methods_serializable :
+  forall (cr : crypto) (L : Type) (l0 : xcall -> L) (body : xcall -> list (sstate * L -> sstate * L))
+           (res : xcall -> L -> xobs),
+         (forall (c : xcall) (s : sstate), atomic l0 body res c s = xstep cr c s) ->
+         forall (progs : list (list xcall)) (cfg : config sstate L xobs xcall) (s0 : sstate),
+         steps l0 body res (init s0 progs) cfg ->
+         exists s1 : sstate,
+           xrun cr s0 (calls (log cfg)) = (s1, results (log cfg)) /\ (holder cfg = None -> s1 = shared cfg).
+Proof. exact xshared_serializable. Qed.
+
+Theorem C15_read_only_methods_change_nothing :
+  forall (cr : crypto) (L : Type) (l0 : xcall -> L) (body : xcall -> list (sstate * L -> sstate * L))
+           (res : xcall -> L -> xobs),
+         (forall (c : xcall) (s : sstate), atomic l0 body res c s = xstep cr c s) ->
+         forall (progs : list (list xcall)) (cfg : config sstate L xobs xcall) (s0 : sstate) 
+           (i t : nat) (call : xcall) (r : xobs),
+         steps l0 body res (init s0 progs) cfg ->
+         nth_error (log cfg) i = Some (t, call, r) ->
+         xnew call = true ->
+         exists si si' : sstate,
+           xrun cr s0 (firstn i (calls (log cfg))) = (si, firstn i (results (log cfg))) /\
+           xrun cr s0 (firstn (S i) (calls (log cfg))) = (si', firstn (S i) (results (log cfg))) /\
+           r = snd (xstep cr call si) /\
+           fst si' = fst si /\
+           w_disk (snd si') = w_disk (snd si) /\
+           w_journal (snd si') = w_journal (snd si) /\
+           w_events (snd si') = xnew_events call si ++ w_events (snd si).
+Proof. exact xshared_new_call_frame. Qed.
+
+Theorem C15_all_writer_methods_reach_the_list_model :
+  forall (cr : crypto) (sk : bytes),
+         OplogFacts.crc_ok cr ->
+         (forall x : bytes, Datatypes.length (cr_hash cr x) = 32%nat) ->
+         (forall x : bytes, all_zero (cr_hash cr x) = false) ->
+         (forall x : bytes, bytes_ok (cr_hash cr x) = true) ->
+         (forall k m : bytes, Datatypes.length (cr_sign cr k m) = 64%nat) ->
+         (forall k m : bytes, bytes_ok (cr_sign cr k m) = true) ->
+         forall (L : Type) (l0 : xcall -> L) (body : xcall -> list (sstate * L -> sstate * L))
+           (res : xcall -> L -> xobs),
+         (forall (c : xcall) (s : sstate), atomic l0 body res c s = xstep cr c s) ->
+         forall (progs : list (list xcall)) (cfg : config sstate L xobs xcall) (c : core) 
+           (d : disk) (j : list sop) (ev : list event) (bs : list bytes) (cl : N -> bool),
+         XInv cr sk c d bs cl ->
+         kp_secret (c_keypair c) = Some sk ->
+         Forall (fun p : list xcall => wf_u (map xto_uop p) (N.of_nat (Datatypes.length bs))) progs ->
+         sumN (map len (bs ++ uappended (map xto_uop (concat progs)))) <= u64_max ->
+         NODE_SIZE * (2 * N.of_nat (Datatypes.length (bs ++ uappended (map xto_uop (concat progs))))) <=
+         u64_max ->
+         steps l0 body res (init (c, {| w_disk := d; w_journal := j; w_events := ev |}) progs) cfg ->
+         let cs := calls (log cfg) in
+         exists s1 : sstate,
+           (holder cfg = None -> s1 = shared cfg) /\
+           (xmodel_end cr sk c s1 cs bs cl \/ xframe_stop cs (results (log cfg))).
+Proof. exact xshared_unified. Qed.
+
+Theorem C15_append_outcomes_gap_free_with_all_methods :
+  forall (cr : crypto) (sk : bytes),
+         OplogFacts.crc_ok cr ->
+         (forall x : bytes, Datatypes.length (cr_hash cr x) = 32%nat) ->
+         (forall x : bytes, all_zero (cr_hash cr x) = false) ->
+         (forall x : bytes, bytes_ok (cr_hash cr x) = true) ->
+         (forall k m : bytes, Datatypes.length (cr_sign cr k m) = 64%nat) ->
+         (forall k m : bytes, bytes_ok (cr_sign cr k m) = true) ->
+         forall (L : Type) (l0 : xcall -> L) (body : xcall -> list (sstate * L -> sstate * L))
+           (res : xcall -> L -> xobs),
+         (forall (c : xcall) (s : sstate), atomic l0 body res c s = xstep cr c s) ->
+         forall (progs : list (list xcall)) (cfg : config sstate L xobs xcall) (c : core) 
+           (d : disk) (j : list sop) (ev : list event) (bs : list bytes) (cl : N -> bool),
+         XInv cr sk c d bs cl ->
+         kp_secret (c_keypair c) = Some sk ->
+         Forall (fun p : list xcall => wf_u (map xto_uop p) (N.of_nat (Datatypes.length bs))) progs ->
+         sumN (map len (bs ++ uappended (map xto_uop (concat progs)))) <= u64_max ->
+         NODE_SIZE * (2 * N.of_nat (Datatypes.length (bs ++ uappended (map xto_uop (concat progs))))) <=
+         u64_max ->
+         steps l0 body res (init (c, {| w_disk := d; w_journal := j; w_events := ev |}) progs) cfg ->
+         forall (i t : nat) (f : option bool) (batch : list bytes) (r : xobs),
+         nth_error (log cfg) i = Some (t, XOld (SAppend f batch), r) ->
+         (forall k : nat, (k < i)%nat -> nth_error (results (log cfg)) k <> Some xframe_panic) ->
+         let before := firstn i (calls (log cfg)) in
+         r =
+         XOOld
+           (UOAppend
+              (Ok
+                 (N.of_nat (Datatypes.length bs) + sumN (map xcblocks before) +
+                  N.of_nat (Datatypes.length batch),
+                  sumN (map len bs) + sumN (map xcbytes before) + sumN (map len batch)))) \/ 
+         r = xframe_panic.
+Proof. exact xshared_append_outcome. Qed.
+
+Theorem C15_blocks_readable_with_all_methods :
+  forall (cr : crypto) (sk : bytes),
+         OplogFacts.crc_ok cr ->
+         (forall x : bytes, Datatypes.length (cr_hash cr x) = 32%nat) ->
+         (forall x : bytes, all_zero (cr_hash cr x) = false) ->
+         (forall x : bytes, bytes_ok (cr_hash cr x) = true) ->
+         (forall k m : bytes, Datatypes.length (cr_sign cr k m) = 64%nat) ->
+         (forall k m : bytes, bytes_ok (cr_sign cr k m) = true) ->
+         forall (L : Type) (l0 : xcall -> L) (body : xcall -> list (sstate * L -> sstate * L))
+           (res0 : xcall -> L -> xobs),
+         (forall (c : xcall) (s : sstate), atomic l0 body res0 c s = xstep cr c s) ->
+         forall (progs : list (list xcall)) (cfg : config sstate L xobs xcall) (c : core) 
+           (d : disk) (j : list sop) (ev : list event) (bs : list bytes) (cl : N -> bool),
+         XInv cr sk c d bs cl ->
+         kp_secret (c_keypair c) = Some sk ->
+         Forall (fun p : list xcall => wf_u (map xto_uop p) (N.of_nat (Datatypes.length bs))) progs ->
+         sumN (map len (bs ++ uappended (map xto_uop (concat progs)))) <= u64_max ->
+         NODE_SIZE * (2 * N.of_nat (Datatypes.length (bs ++ uappended (map xto_uop (concat progs))))) <=
+         u64_max ->
+         steps l0 body res0 (init (c, {| w_disk := d; w_journal := j; w_events := ev |}) progs) cfg ->
+         forall (i t : nat) (f : option bool) (batch : list bytes) (n b : N) (k : nat),
+         holder cfg = None ->
+         ~ In xframe_panic (results (log cfg)) ->
+         nth_error (log cfg) i = Some (t, XOld (SAppend f batch), XOOld (UOAppend (Ok (n, b)))) ->
+         (k < Datatypes.length batch)%nat ->
+         let idx := n - N.of_nat (Datatypes.length batch) + N.of_nat k in
+         covers (map xto_uop (skipn (S i) (calls (log cfg)))) idx = false ->
+         let cF := fst (shared cfg) in
+         let dF := w_disk (snd (shared cfg)) in
+         core_has cF idx = true /\
+         (forall (j' : list sop) (ev' : list event),
+          core_get idx cF {| w_disk := dF; w_journal := j'; w_events := ev' |} =
+          (cF, {| w_disk := dF; w_journal := j'; w_events := ev' |}, Ok (Some (nth k batch [])))).
+Proof. exact xshared_blocks_readable. Qed.
+
+Theorem C15_create_proof_outcome_in_concurrent_runs :
+  forall (cr : crypto) (sk : bytes),
+         OplogFacts.crc_ok cr ->
+         (forall x : bytes, Datatypes.length (cr_hash cr x) = 32%nat) ->
+         (forall x : bytes, all_zero (cr_hash cr x) = false) ->
+         (forall x : bytes, bytes_ok (cr_hash cr x) = true) ->
+         (forall k m : bytes, Datatypes.length (cr_sign cr k m) = 64%nat) ->
+         (forall k m : bytes, bytes_ok (cr_sign cr k m) = true) ->
+         forall (L : Type) (l0 : xcall -> L) (body : xcall -> list (sstate * L -> sstate * L))
+           (res0 : xcall -> L -> xobs),
+         (forall (c : xcall) (s : sstate), atomic l0 body res0 c s = xstep cr c s) ->
+         forall (progs : list (list xcall)) (cfg : config sstate L xobs xcall) (c : core) 
+           (d : disk) (j : list sop) (ev : list event) (bs : list bytes) (cl : N -> bool),
+         XInv cr sk c d bs cl ->
+         kp_secret (c_keypair c) = Some sk ->
+         Forall (fun p : list xcall => wf_u (map xto_uop p) (N.of_nat (Datatypes.length bs))) progs ->
+         sumN (map len (bs ++ uappended (map xto_uop (concat progs)))) <= u64_max ->
+         NODE_SIZE * (2 * N.of_nat (Datatypes.length (bs ++ uappended (map xto_uop (concat progs))))) <=
+         u64_max ->
+         steps l0 body res0 (init (c, {| w_disk := d; w_journal := j; w_events := ev |}) progs) cfg ->
+         forall (i t : nat) (block hash : option req_block) (seek : option req_seek)
+           (upgrade : option req_upgrade) (r : xobs),
+         nth_error (log cfg) i = Some (t, SCreateProof block hash seek upgrade, r) ->
+         (forall k : nat, (k < i)%nat -> nth_error (results (log cfg)) k <> Some xframe_panic) ->
+         exists (ci : core) (di : disk) (ji : list sop) (evi : list event) (r0 : res (option proof)),
+           r = XOProof r0 /\
+           xrun cr (c, {| w_disk := d; w_journal := j; w_events := ev |}) (firstn i (calls (log cfg))) =
+           (ci, {| w_disk := di; w_journal := ji; w_events := evi |}, firstn i (results (log cfg))) /\
+           XInv cr sk ci di (xblocks_of (log cfg) bs i) (xcleared_of (log cfg) bs cl i) /\
+           r0 =
+           snd
+             (core_create_proof block hash seek upgrade ci {| w_disk := di; w_journal := ji; w_events := evi |}) /\
+           proof_honest cr sk (xblocks_of (log cfg) bs i) (xcleared_of (log cfg) bs cl i) block upgrade r0 /\
+           (r0 = Ok None ->
+            exists rb : req_block,
+              block = Some rb /\
+              held (N.of_nat (Datatypes.length (xblocks_of (log cfg) bs i))) (xcleared_of (log cfg) bs cl i)
+                (rb_index rb) = false /\
+              xnew_events (SCreateProof block hash seek upgrade)
+                (ci, {| w_disk := di; w_journal := ji; w_events := evi |}) = [EvGet (rb_index rb)]) /\
+           (r0 <> Ok None ->
+            xnew_events (SCreateProof block hash seek upgrade)
+              (ci, {| w_disk := di; w_journal := ji; w_events := evi |}) = []).
+Proof. exact xshared_create_proof_outcome. Qed.
+
+Theorem C15_missing_nodes_outcome_in_concurrent_runs :
+  forall (cr : crypto) (sk : bytes),
+         OplogFacts.crc_ok cr ->
+         (forall x : bytes, Datatypes.length (cr_hash cr x) = 32%nat) ->
+         (forall x : bytes, all_zero (cr_hash cr x) = false) ->
+         (forall x : bytes, bytes_ok (cr_hash cr x) = true) ->
+         (forall k m : bytes, Datatypes.length (cr_sign cr k m) = 64%nat) ->
+         (forall k m : bytes, bytes_ok (cr_sign cr k m) = true) ->
+         forall (L : Type) (l0 : xcall -> L) (body : xcall -> list (sstate * L -> sstate * L))
+           (res0 : xcall -> L -> xobs),
+         (forall (c : xcall) (s : sstate), atomic l0 body res0 c s = xstep cr c s) ->
+         forall (progs : list (list xcall)) (cfg : config sstate L xobs xcall) (c : core) 
+           (d : disk) (j : list sop) (ev : list event) (bs : list bytes) (cl : N -> bool),
+         XInv cr sk c d bs cl ->
+         kp_secret (c_keypair c) = Some sk ->
+         Forall (fun p : list xcall => wf_u (map xto_uop p) (N.of_nat (Datatypes.length bs))) progs ->
+         sumN (map len (bs ++ uappended (map xto_uop (concat progs)))) <= u64_max ->
+         NODE_SIZE * (2 * N.of_nat (Datatypes.length (bs ++ uappended (map xto_uop (concat progs))))) <=
+         u64_max ->
+         steps l0 body res0 (init (c, {| w_disk := d; w_journal := j; w_events := ev |}) progs) cfg ->
+         forall (i t : nat) (index : N) (r : xobs),
+         nth_error (log cfg) i = Some (t, SMissingNodes index, r) ->
+         (forall k : nat, (k < i)%nat -> nth_error (results (log cfg)) k <> Some xframe_panic) ->
+         r = XOMissing (if fits_u64 (index * 2) then Ok 0 else Panic "index * 2").
+Proof. exact xshared_missing_nodes_outcome. Qed.
+
+Theorem C15_all_replica_methods_serializable :
+  forall (cr : crypto) (L : Type) (l0 : qcall -> L) (body : qcall -> list (rstate * L -> rstate * L))
+           (res : qcall -> L -> qobs),
+         (forall (c : qcall) (s : rstate), atomic l0 body res c s = qstep cr c s) ->
+         forall (progs : list (list qcall)) (cfg : config rstate L qobs qcall) (s0 : rstate),
+         steps l0 body res (init s0 progs) cfg ->
+         exists s1 : rstate,
+           qrun cr s0 (calls (log cfg)) = (s1, results (log cfg)) /\ (holder cfg = None -> s1 = shared cfg).
+Proof. exact qshared_serializable. Qed.
+
+Theorem C15_replica_create_proof_outcome_in_concurrent_runs :
+  forall (cr : crypto) (bs : list bytes),
+         OplogFacts.crc_ok cr ->
+         (forall x : bytes, Datatypes.length (cr_hash cr x) = 32%nat) ->
+         (forall x : bytes, all_zero (cr_hash cr x) = false) ->
+         (forall x : bytes, bytes_ok (cr_hash cr x) = true) ->
+         writer_fits bs ->
+         forall (L : Type) (l0 : qcall -> L) (body : qcall -> list (rstate * L -> rstate * L))
+           (res0 : qcall -> L -> qobs),
+         (forall (c : qcall) (s : rstate), atomic l0 body res0 c s = qstep cr c s) ->
+         forall (progs : list (list qcall)) (cfg : config rstate L qobs qcall) (c : core) 
+           (d : disk) (j : list sop) (ev : list event) (H : N -> bool),
+         RDInv cr bs c d H ->
+         Forall (Forall qcall_ok) progs ->
+         steps l0 body res0 (init (c, {| w_disk := d; w_journal := j; w_events := ev |}) progs) cfg ->
+         forall (i t : nat) (block hash : option req_block) (seek : option req_seek)
+           (upgrade : option req_upgrade) (r : qobs),
+         nth_error (log cfg) i = Some (t, QCreateProof block hash seek upgrade, r) ->
+         (forall k : nat, (k < i)%nat -> nth_error (results (log cfg)) k <> Some qframe_panic) ->
+         (exists (ci : core) (di : disk) (ji : list sop) (evi : list event) (r0 : res (option proof)),
+            r = QOProof r0 /\
+            qrun cr (c, {| w_disk := d; w_journal := j; w_events := ev |}) (firstn i (calls (log cfg))) =
+            (ci, {| w_disk := di; w_journal := ji; w_events := evi |}, firstn i (results (log cfg))) /\
+            RDInv cr bs ci di (qheld_at H (log cfg) i) /\
+            t_length (c_tree c) <= t_length (c_tree ci) /\
+            t_length (c_tree ci) <= N.of_nat (Datatypes.length bs) /\
+            r0 =
+            snd
+              (core_create_proof block hash seek upgrade ci
+                 {| w_disk := di; w_journal := ji; w_events := evi |}) /\
+            proof_sound cr bs ci (qheld_at H (log cfg) i) block upgrade r0 /\
+            (r0 = Ok None ->
+             exists rb : req_block,
+               block = Some rb /\
+               qheld_at H (log cfg) i (rb_index rb) = false /\
+               qnew_events (QCreateProof block hash seek upgrade)
+                 (ci, {| w_disk := di; w_journal := ji; w_events := evi |}) = [EvGet (rb_index rb)]) /\
+            (r0 <> Ok None ->
+             qnew_events (QCreateProof block hash seek upgrade)
+               (ci, {| w_disk := di; w_journal := ji; w_events := evi |}) = [])) \/
+         Sound.some_collision cr \/ forged_signature cr bs (kp_public (c_keypair c)).
+Proof. exact qshared_create_proof_outcome. Qed.
+
+Theorem C15_replica_missing_nodes_outcome_in_concurrent_runs :
+  forall (cr : crypto) (bs : list bytes),
+         OplogFacts.crc_ok cr ->
+         (forall x : bytes, Datatypes.length (cr_hash cr x) = 32%nat) ->
+         (forall x : bytes, all_zero (cr_hash cr x) = false) ->
+         (forall x : bytes, bytes_ok (cr_hash cr x) = true) ->
+         writer_fits bs ->
+         forall (L : Type) (l0 : qcall -> L) (body : qcall -> list (rstate * L -> rstate * L))
+           (res0 : qcall -> L -> qobs),
+         (forall (c : qcall) (s : rstate), atomic l0 body res0 c s = qstep cr c s) ->
+         forall (progs : list (list qcall)) (cfg : config rstate L qobs qcall) (c : core) 
+           (d : disk) (j : list sop) (ev : list event) (H : N -> bool),
+         RDInv cr bs c d H ->
+         Forall (Forall qcall_ok) progs ->
+         steps l0 body res0 (init (c, {| w_disk := d; w_journal := j; w_events := ev |}) progs) cfg ->
+         forall (i t : nat) (index : N) (r : qobs),
+         nth_error (log cfg) i = Some (t, QMissingNodes index, r) ->
+         (forall k : nat, (k < i)%nat -> nth_error (results (log cfg)) k <> Some qframe_panic) ->
+         (exists (ci : core) (di : disk) (ji : list sop) (evi : list event),
+            qrun cr (c, {| w_disk := d; w_journal := j; w_events := ev |}) (firstn i (calls (log cfg))) =
+            (ci, {| w_disk := di; w_journal := ji; w_events := evi |}, firstn i (results (log cfg))) /\
+            RDInv cr bs ci di (qheld_at H (log cfg) i) /\
+            r =
+            QOMissing
+              (if fits_u64 (index * 2)
+               then missing_nodes (c_tree ci) (d_tree di) (index * 2)
+               else Panic "index * 2")) \/
+         Sound.some_collision cr \/ forged_signature cr bs (kp_public (c_keypair c)).
+Proof. exact qshared_missing_nodes_outcome. Qed.
+
 Print Assumptions C15_every_method_is_one_critical_section.
 Print Assumptions C15_mutex_serializable.
 Print Assumptions C15_results_and_program_order.
@@ -416,3 +695,13 @@ Print Assumptions C15_shared_replica_runs_are_serial.
 Print Assumptions C15_shared_replica_no_partial_read.
 Print Assumptions C15_shared_replica_block_readable_after_apply.
 Print Assumptions C15_shared_replica_split_instance.
+Print Assumptions C15_all_writer_methods_serializable.
+Print Assumptions C15_read_only_methods_change_nothing.
+Print Assumptions C15_all_writer_methods_reach_the_list_model.
+Print Assumptions C15_append_outcomes_gap_free_with_all_methods.
+Print Assumptions C15_blocks_readable_with_all_methods.
+Print Assumptions C15_create_proof_outcome_in_concurrent_runs.
+Print Assumptions C15_missing_nodes_outcome_in_concurrent_runs.
+Print Assumptions C15_all_replica_methods_serializable.
+Print Assumptions C15_replica_create_proof_outcome_in_concurrent_runs.
+Print Assumptions C15_replica_missing_nodes_outcome_in_concurrent_runs.
